@@ -256,6 +256,16 @@ def oracle(ctx, hints, effort):
                          micro=dict(corr_length=[cl] * len(ths)), substrate=dict(kind="soil_wegmuller", T=T, eps=[8.0, 1.5], params=dict(roughness_rms=0.01)),
                          atmosphere=dict(tb_down=T, tb_up=0.0, trans=1.0), emmodel="iba", nmax=16, assembly=0))
     todo += grazing_scenes(round(float(rng.uniform(240, 270)), 2))
+    # one thin layer over the boundaries whose coefficients have options: a reflector whose prescribed reflectivity depends on the angle
+    # and on the polarisation (functions of theta), the QNH soil at its default Q = 0 and at Q > 0
+    T_ = round(float(rng.uniform(240, 270)), 2)
+    for sub_ in (dict(kind="reflector", eps=[3.0, 0.0], params=dict(specular_reflection={"V": {"$fn": [0.2, 0.6]}, "H": {"$fn": [0.3, 0.5]}})),
+                 dict(kind="reflector", eps=[3.0, 0.0], params=dict(specular_reflection={"$fn": [0.2, 0.7]})),
+                 dict(kind="soil_qnh", eps=[6.0, 1.2], params=dict(Q=0.0, N=1.0, H=0.5, Nv=1.0, Nh=1.0)),
+                 dict(kind="soil_qnh", eps=[6.0, 1.2], params=dict(Q=0.2, N=2.0, H=1.2, Nv=2.0, Nh=2.0))):
+        todo.append(dict(thickness=[0.15], density=[280.0], temperature=[T_], microstructure="exponential", frequency=10.65e9,
+                         micro=dict(corr_length=[1.5e-4]), substrate=dict(sub_, T=T_), atmosphere=dict(tb_down=T_, tb_up=0.0, trans=1.0),
+                         emmodel="iba", nmax=16, assembly=0))
     # other ways the same scene reaches the solver: a list of sensors paired with a list of media; temperatures set through update()
     for j, sc in enumerate([t for t in todo if "emmodel" in t and t.get("ice_permittivity") is None and len(t["thickness"]) == 1
                             and "interface" not in t][:2 if effort == "routine" else 10]):
